@@ -431,6 +431,29 @@ pub fn check_program(ctx: &Ctx, p: &Prog, rng: &mut Rng, all_mutants: bool) {
             check_must_fail(ctx, &m, "alias-after-undef", &format!("alias `{}` used after .undef", nm));
         }
     }
+    // names that exist only in text that is not assembled: a label in an unselected branch, labels in
+    // front of the directives of a chain nested in it, a label behind `.exit`
+    {
+        let ghosts = ["ghost_plain", "ghost_on_nested_if", "ghost_on_nested_else", "ghost_on_nested_endif", "ghost_on_else_after_taken"];
+        for (k, g) in ghosts.iter().enumerate() {
+            if !all_mutants && !rng.chance(1, 2) {
+                continue;
+            }
+            let mut m = p.nodes.clone();
+            m.push(Node::Seg(Seg::Code));
+            for l in [".if 0", "ghost_plain: nop", "ghost_on_nested_if: .if 1", "\tnop", "ghost_on_nested_else: .else", "\tnop", "ghost_on_nested_endif: .endif", ".endif", ".if 1", "\tnop", ".elif 1", "\tnop", "ghost_on_else_after_taken: .else", "\tnop", ".endif"] {
+                m.push(Node::Raw(l.to_string()));
+            }
+            m.push(Node::Data { label: None, width: 2, ops: vec![DataOp::E(E::Sym(spell::case(g, rng)))] });
+            let src = ir::print_canonical(&m);
+            let out = fw::build_str(&src);
+            ctx.eval(1);
+            ctx.count("mutants:reference-to-a-name-in-unassembled-text", 1);
+            if !out.is_err() {
+                ctx.violation(format!("sym/mutant/name-in-unassembled-text/{}/accepted", ["plain", "nested-if-line", "nested-else-line", "nested-endif-line", "else-after-taken-branch"][k]), format!("`{}` stands only in text that is not assembled, yet the reference builds", g), json!({"source": src, "kind": "name-in-unassembled-text", "mutation": g, "must_fail": true, "observed": out.brief()}));
+            }
+        }
+    }
     // undefined name in each kind of use
     let mut m = p.nodes.clone();
     let pos = m.len();
@@ -458,7 +481,7 @@ pub fn run(ctx: &Ctx) -> i32 {
     });
     fw::finish(
         ctx,
-        "programs of 5-40 steps defining and using code/data/EEPROM labels, .equ (chained, forward-defined), .set (reassignment chains incl. `v = v + k`) and .def/.undef/.def aliases, every definition and reference in independently random letter case, referenced from ldi low()/high(), lds/sts, rjmp/rcall/jmp/call and .dw/.dd; per program all single-symbol mutants: delete each referenced definition, duplicate each label, define each .equ a second time with another value, each label also by .equ and each .equ also as a label, redefine each live alias on another register (refused, or rebound - never the old register), use each alias after its .undef, undefined names in data/instruction/alias position (all must fail), and every alias replaced by its register (identical image); counters lookup:* = LOOKUP hook events by answering table; distinct_nontrivial = distinct base program texts",
+        "programs of 5-40 steps defining and using code/data/EEPROM labels, .equ (chained, forward-defined), .set (reassignment chains incl. `v = v + k`) and .def/.undef/.def aliases, every definition and reference in independently random letter case, referenced from ldi low()/high(), lds/sts, rjmp/rcall/jmp/call and .dw/.dd; per program all single-symbol mutants: delete each referenced definition, duplicate each label, define each .equ a second time with another value, each label also by .equ and each .equ also as a label, redefine each live alias on another register (refused, or rebound - never the old register), use each alias after its .undef, reference names that stand only in unassembled text (unselected branch, labels in front of the directives of a chain nested in it, `.else` after a taken branch), undefined names in data/instruction/alias position (all must fail), and every alias replaced by its register (identical image); counters lookup:* = LOOKUP hook events by answering table; distinct_nontrivial = distinct base program texts",
         &["refmodel/layout.rs binding rules (labels and .equ global and lazy, .set sequential in source order, .def live from definition to .undef)", "a second .def of a live alias without .undef may be refused or rebind the alias (both documented behaviours); silently keeping the old register is a violation"],
     )
 }
